@@ -8,7 +8,13 @@ proof side     : Props/C12.lean (pol_heun_formula, pol_boundary_rule, pol_impl_f
                  uninterpreted; gen_pol_expl_eq: for every node the generated function stores Model `finalVal` of Model `explFoot` (Evals
                  instantiated with the uninterpreted functions, wrap = x % (2*pi); contract: the eval_spline_2d_cross tables equal the
                  scalar evaluator at the nodes), entries outside the box untouched; gen_pol_expl_heun_inside carries pol_heun_formula /
-                 pol_boundary_rule over to the source).  The implicit step is tied by differential testing only.
+                 pol_boundary_rule over to the source).
+                 Props/C12Gen2.lean (tie by translation of the IMPLICIT step: Generated/PolImplGen.lean = `general_poloidal_advection_step_impl`
+                 regenerated on every run [`while (norm > tol)` with fuel, numpy `abs`, `if`s that only assign = functions of the state, loop bodies
+                 as `body_of_<loop>` = composition of `part<k>_of_<loop>`]; gen_impl_sweep_eq: one pass of the generated while body over all nodes =
+                 Model `sweep` incl. the norm; gen_impl_while_eq: generated while with fuel >= N+1 = Model `implLoop` with fuel N;
+                 gen_pol_impl_eq: whenever Model `implStep` returns within N sweeps the generated function returns and the row-major list of the
+                 new f is the model's (same contract on the eval_spline_2d_cross tables), entries outside the box untouched).
 correspondence : real `PoloidalAdvection.step(f, dt, phi, v)` (explicitTrap True/False, nulEdge True/False) vs. the model at Q
                  (Drivers/C11.lean, op "pol").  The model receives the coefficients of the real phi spline and of the real
                  interpolant of the old f and evaluates them exactly; `x % (2*pi)` is `x - P*floor(x/P)` with P the double
@@ -637,6 +643,55 @@ def slow_contraction_test(chk, C):
         done += 1
 
 
+F28_SIG = 'C12:impl-no-termination:phi=0.3*r*cos(2*theta),dt=1,8x8-cubic,r-in-[0.1,14.5]'
+
+
+def known_nontermination(chk, C):
+    """finding F28 (known, not repaired): outside the contraction regime |dt| L / 2 < 1 the fixed-point iteration of the implicit scheme has
+    no reason to converge and the `while (norm > tol)` of the kernel has no iteration limit.  The specific input recorded in
+    KNOWN_FINDINGS.json is replayed on the real code on every run (10 CPU seconds guard; the explicit scheme needs 0.01 s); the model level
+    counterpart is Props/C12NonTerm.lean (pol_impl_need_not_terminate: out of fuel for EVERY fuel)."""
+    from pygyro.splines import splines as spl
+    from pygyro.splines.spline_interpolators import SplineInterpolator2D
+    nq = nr = 8
+    bq = spl.BSplines(spl.make_knots(np.linspace(0, 2 * np.pi, nq + 1), 3, True), 3, True, True)
+    br = spl.BSplines(spl.make_knots(np.linspace(0.1, 14.5, nr - 2), 3, False), 3, False, True)
+    q, r = bq.greville, br.greville
+    A, dt, B0 = 0.3, 1.0, 1.0
+    phi = spl.Spline2D(bq, br)
+    SplineInterpolator2D(bq, br).compute_interpolant(A * np.cos(2 * q)[:, None] * r[None, :], phi)
+    fv = np.ones((nq, nr))
+    case = {'grid': '8x8 uniform cubic, theta periodic, r in [0.1, 14.5]', 'phi': '0.3*r*cos(2*theta)', 'dt': dt, 'B0': B0, 'tol': 1e-10,
+            'explicitTrap': False}
+    # the independent iteration (analytic drift, no pygyro code): the change between iterates does not go to zero
+    Q, R = np.meshgrid(q, r, indexing='ij')
+
+    def drift(qq, rr):
+        return -A * np.cos(2 * qq) / (rr * B0), -2 * A * np.sin(2 * qq) / B0
+    dq0, dr0 = drift(Q, R)
+    qk, rk = (Q + dq0 * dt) % (2 * np.pi), np.clip(R + dr0 * dt, r[0], r[-1])
+    last = []
+    for it in range(2000):
+        dqk, drk = drift(qk, rk)
+        qn = (Q + 0.5 * dt * (dq0 + dqk)) % (2 * np.pi)
+        rn = np.clip(R + 0.5 * dt * (dr0 + drk), r[0], r[-1])
+        d = np.abs(qn - qk)
+        d = np.where(d > np.pi, 2 * np.pi - d, d)
+        last.append(max(d.max(), np.abs(rn - rk).max()))
+        qk, rk = qn, rn
+    case['independent_iteration_change_after_2000_sweeps'] = float(min(last[-50:]))
+    try:
+        run_real(C, bq, br, q, r, phi, fv, dt, 0.0, True, True, 1e-10, B0, timeout=10.0)       # explicit: returns at once
+        run_real(C, bq, br, q, r, phi, fv, dt, 0.0, True, False, 1e-10, B0, timeout=10.0)
+        chk.count('F28 input: the implicit step returned')
+    except Timeout:
+        chk.fail(F28_SIG, 'the implicit poloidal step does not return (10 CPU seconds; the explicit step needs 0.01 s): the fixed-point '
+                 'iteration cycles (independent iteration: change between iterates %.2g after 2000 sweeps) and the while loop has no '
+                 'iteration limit' % case['independent_iteration_change_after_2000_sweeps'], case)
+        chk.count('F28 input: the implicit step does not return (known finding)')
+    chk.case(('F28',), nontrivial=True)
+
+
 def run(chk):
     from pygyro.initialisation.constants import Constants
     chk.rule = ('cases: (explicit Heun | implicit trapezoid) x (nulEdge | fEq edge) x (uniform-cubic kernels | general kernels degree '
@@ -651,7 +706,9 @@ def run(chk):
                        'testing (exact rationals with evaluator arguments / carried iterates rounded to 2^-80; own termination decision).')
     # Props/C12Gen.lean is about Generated/PolExplGen.lean = the explicit step as the source says it NOW: regenerate it first
     common.run_translator(chk, 'translate_pure.py', '--only', 'polexpl')
-    chk.proof_side(build=not getattr(chk, 'no_build', False), extra_props=('C12Extra', 'C12Gen'))
+    # Props/C12Gen2.lean: Generated/PolImplGen.lean = the implicit step (sweeps until norm <= tol, then the value at the feet)
+    common.run_translator(chk, 'translate_pure.py', '--only', 'polimpl')
+    chk.proof_side(build=not getattr(chk, 'no_build', False), extra_props=('C12Extra', 'C12Gen', 'C12Gen2', 'C12NonTerm'))
     C = Constants()
     drv = common.LeanDriver('C11.lean')
     try:
@@ -661,6 +718,7 @@ def run(chk):
     reuse_cases(chk, C)
     order_test(chk, C)
     slow_contraction_test(chk, C)
+    known_nontermination(chk, Constants())
     chk.assumptions = [
         'compute_interpolant is a contract: the model evaluates the coefficients of the real phi spline and of the real interpolant of the old f',
         'both spline paths evaluate the same spline (C07); the cubic-uniform path is evaluated on the equidistant knot vector xmin+dx*(i-3)',
@@ -668,7 +726,7 @@ def run(chk):
         'f_eq is a tag; the harness evaluates the real f_eq at the model\'s arguments',
         'tolerance = first-order forward error bound of the double-precision kernel (rounding of each spline evaluation and position update, propagated with global Lipschitz bounds 2p/h per derivative of the evaluators); no absolute constant',
         'nodes whose predictor or foot lies within 2^-40*(rmax-rmin) of rmin/rmax are excluded and counted (as the property says)',
-        'model evaluators round their arguments, and the implicit iterates carried between sweeps, down to multiples of 2^-80 (bounded rational size); fuel 400; termination of the real code is observed (20 s guard), not proved',
+        'model evaluators round their arguments, and the implicit iterates carried between sweeps, down to multiples of 2^-80 (bounded rational size); fuel 400; termination of the real code is observed (20 s guard); it is proved for contractions (C12Extra) and refuted in general (C12NonTerm, finding F28)',
         'the potential spline has degree >= 2 in both directions (for degree 1 the derivative evaluators are discontinuous at the knots = nodes, a comparison there is not meaningful)',
     ]
     return chk.finish()
